@@ -27,7 +27,6 @@ import (
 	"os"
 	"path/filepath"
 	"sort"
-	"strconv"
 	"strings"
 
 	"golang.org/x/tools/go/packages"
@@ -191,6 +190,9 @@ func (o *out) guard(name string, fallback string, f func()) {
 func failf(format string, a ...any) { panic(fmt.Sprintf(format, a...)) }
 
 func natFallback(name string) string { return fmt.Sprintf("def %s : Nat := 0", name) }
+func listNatFallback(name string) string {
+	return fmt.Sprintf("def %s : List Nat := [0]", name)
+}
 func strFallback(name string) string {
 	return fmt.Sprintf("def %s : String := \"<not extracted>\"", name)
 }
@@ -302,40 +304,145 @@ func main() {
 // ---------- constants ----------
 
 func emitConsts(w *world, o *out) {
-	o.guard("longScaleLiteral", natFallback("longScaleLiteral"), func() {
-		// the integer literal inside float32(…): the model rounds it to float32 itself
-		lit := ""
-		for _, f := range w.root.Syntax {
-			ast.Inspect(f, func(n ast.Node) bool {
-				if vs, ok := n.(*ast.ValueSpec); ok {
-					for i, nm := range vs.Names {
-						if nm.Name == "longScale" && i < len(vs.Values) {
-							if c, ok := vs.Values[i].(*ast.CallExpr); ok && len(c.Args) == 1 {
-								if tv, ok := w.root.TypesInfo.Types[c.Fun]; ok && tv.IsType() && typeStr(tv.Type) == "float32" {
-									if av, ok := w.root.TypesInfo.Types[c.Args[0]]; ok && av.Value != nil {
-										lit = av.Value.ExactString()
-									}
-								}
-							}
+	fns := w.moduleFunctions(w.root.PkgPath)
+	// functions that turn the hash into a bucket value: the callers of internal.ParseHexUint64
+	callsParse := func(fn *ssa.Function) bool {
+		for _, blk := range fn.Blocks {
+			for _, ins := range blk.Instrs {
+				if call, ok := ins.(*ssa.Call); ok {
+					if callee := call.Call.StaticCallee(); callee != nil && callee.Name() == "ParseHexUint64" {
+						return true
+					}
+				}
+			}
+		}
+		return false
+	}
+	o.guard("longScaleValue", natFallback("longScaleValue"), func() {
+		// the divisor of the one float32 division in those functions, as the compiler sees it (an
+		// exact float32 value; the model rounds its own literal the same way)
+		found := map[string]bool{}
+		for _, fn := range fns {
+			if !callsParse(fn) {
+				continue
+			}
+			for _, blk := range fn.Blocks {
+				for _, ins := range blk.Instrs {
+					bo, ok := ins.(*ssa.BinOp)
+					if !ok || bo.Op != token.QUO {
+						continue
+					}
+					if typeStr(bo.Type()) != "float32" {
+						failf("the bucket division is no longer a float32 division (%s)", typeStr(bo.Type()))
+					}
+					c, ok := bo.Y.(*ssa.Const)
+					if !ok || c.Value == nil {
+						failf("the divisor of the bucket division is not a constant")
+					}
+					iv := constant.ToInt(c.Value)
+					if iv.Kind() != constant.Int {
+						failf("the divisor of the bucket division is not integral: %s", c.Value.ExactString())
+					}
+					found[iv.ExactString()] = true
+				}
+			}
+		}
+		if len(found) != 1 {
+			failf("expected one division by a constant in the functions that call ParseHexUint64, found %d", len(found))
+		}
+		for k := range found {
+			o.w("def longScaleValue : Nat := %s\n", k)
+		}
+	})
+	// make([]T, n, <constant>) is an allocation of [cap]T in SSA form ("makeslice"), or a MakeSlice
+	constCap := func(ins ssa.Instruction, elem string) (int64, bool) {
+		switch t := ins.(type) {
+		case *ssa.Alloc:
+			if t.Comment != "makeslice" {
+				return 0, false
+			}
+			if arr, ok := t.Type().Underlying().(*types.Pointer).Elem().Underlying().(*types.Array); ok && typeStr(arr.Elem()) == elem {
+				return arr.Len(), true
+			}
+		case *ssa.MakeSlice:
+			if sl, ok := t.Type().Underlying().(*types.Slice); ok && typeStr(sl.Elem()) == elem {
+				if c, ok := t.Cap.(*ssa.Const); ok && c.Value != nil {
+					if v, ok := constant.Int64Val(constant.ToInt(c.Value)); ok {
+						return v, true
+					}
+				}
+				failf("a []%s is made with a capacity that is not a constant", elem)
+			}
+		}
+		return 0, false
+	}
+	// intoField: the made slice is stored into a field of a struct (a buffer object, the chains of
+	// the stack), as opposed to being a local scratch slice
+	intoField := func(ins ssa.Instruction) bool {
+		v, ok := ins.(ssa.Value)
+		if !ok || v.Referrers() == nil {
+			return false
+		}
+		work := []ssa.Value{v}
+		seen := map[ssa.Value]bool{}
+		for len(work) > 0 {
+			x := work[len(work)-1]
+			work = work[:len(work)-1]
+			if seen[x] || x.Referrers() == nil {
+				continue
+			}
+			seen[x] = true
+			for _, r := range *x.Referrers() {
+				switch t := r.(type) {
+				case *ssa.Slice:
+					work = append(work, t)
+				case *ssa.Store:
+					if t.Val == x {
+						if _, ok := t.Addr.(*ssa.FieldAddr); ok {
+							return true
 						}
 					}
 				}
-				return true
-			})
+			}
 		}
-		if lit == "" {
-			failf("longScale is no longer float32(<integer constant>)")
-		}
-		n, err := strconv.ParseUint(lit, 10, 64)
-		if err != nil {
-			failf("longScale operand %q: %v", lit, err)
-		}
-		o.w("def longScaleLiteral : Nat := %d\n", n)
-	})
-	for _, k := range []string{"initialHashInputBufferSize", "preallocatedPrerequisiteChainSize", "preallocatedSegmentChainSize"} {
-		k := k
-		o.guard(k, natFallback(k), func() { o.w("def %s : Nat := %d\n", k, w.natConst(w.root, k)) })
+		return false
 	}
+	capsOf := func(elem string) []int64 {
+		res := []int64{}
+		for _, fn := range fns {
+			for _, blk := range fn.Blocks {
+				for _, ins := range blk.Instrs {
+					if n, ok := constCap(ins, elem); ok && intoField(ins) {
+						res = append(res, n)
+					}
+				}
+			}
+		}
+		sort.Slice(res, func(i, j int) bool { return res[i] < res[j] })
+		return res
+	}
+	o.guard("initialHashInputBufferSize", natFallback("initialHashInputBufferSize"), func() {
+		// the capacity of the byte buffer(s) the evaluation package makes for the hash input
+		caps := capsOf("byte")
+		if len(caps) == 0 {
+			failf("the evaluation package no longer makes a []byte with a constant capacity")
+		}
+		for _, c := range caps {
+			if c != caps[0] {
+				failf("byte buffers of different capacities: %v", caps)
+			}
+		}
+		o.w("def initialHashInputBufferSize : Nat := %d\n", caps[0])
+	})
+	o.guard("preallocatedChainSizes", listNatFallback("preallocatedChainSizes"), func() {
+		// the capacities of the []string chains the evaluation package preallocates
+		caps := capsOf("string")
+		parts := []string{}
+		for _, c := range caps {
+			parts = append(parts, fmt.Sprint(c))
+		}
+		o.w("def preallocatedChainSizes : List Nat := [%s]\n", strings.Join(parts, ", "))
+	})
 	o.guard("hashHexDigits", natFallback("hashHexDigits"), func() {
 		// how many hex characters of the SHA-1 go into the bucket value: the argument of every call
 		// to internal.ParseHexUint64 in the evaluation package is a slice x[:N] with constant N
